@@ -1102,6 +1102,16 @@ func (x *Exec) localsEnv(fr *Frame, st *State, env *Env, body map[*ssa.BasicBloc
 		}
 		env.vars[name] = tv{v, t}
 	}
+	// locals that were only renamed since the contracts were written keep their recorded names (locals.go)
+	for oldName, newName := range x.eng.localAliases(fr.fn) {
+		if _, has := env.vars[oldName]; has {
+			continue
+		}
+		if v, ok := env.vars[newName]; ok {
+			env.vars[oldName] = v
+			x.note("renamed local", oldName+" is now "+newName+" in "+fr.fn.Name())
+		}
+	}
 }
 
 func (x *Exec) isParamName(fn *ssa.Function, name string) bool {
